@@ -396,6 +396,23 @@ type (
 	B int
 )
 `,
+		"embedded-field-comments": `package p
+
+import "sync"
+
+type T struct {
+	sync.Mutex        // guards
+	name       string // the name
+	other      int    // other
+	*Base             // embedded pointer
+	io.Reader         // embedded interface
+}
+
+type I interface {
+	fmt.Stringer // embedded
+	M() int      // method
+}
+`,
 		"label-at-end": `package p
 
 func f(x int) {
